@@ -4,6 +4,8 @@ import ExponaxModel.Model.BVec
 import ExponaxModel.Model.Layout
 import ExponaxModel.Model.Loops
 import ExponaxModel.Model.Transform
+import ExponaxModel.Model.Nonlin
+import ExponaxModel.Model.EtdrkSpec
 import ExponaxModel.Generated.Etdrk
 import ExponaxModel.Generated.Convert
 import ExponaxModel.Generated.Misc
@@ -77,7 +79,66 @@ def outCF (l : List CF) : String := " ".intercalate (l.map (fun z => floatTok z.
 def outRe (l : List CF) : String := " ".intercalate (l.map (fun z => floatTok z.re))
 def b2i (b : Bool) : Int := if b then 1 else 0
 
-def fnOfArray (a : Array CF) : Nat → CF := fun i => a.getD i 0
+
+open Nonlin in
+/-- parse a nonlinear-function spec; returns (channels, the model term) -/
+def pNonlin (c : Cfg CF) (C : Nat) : P (MC CF → MC CF) := do
+  let kind ← nextTok
+  match kind with
+  | "zero" => return fun _ => tab2 C (modes c) (fun _ _ => 0)
+  | "conv" =>
+    let scale ← pRe; let single ← pNat; let cons ← pNat
+    return convection c C scale (single = 1) (cons = 1)
+  | "gradnorm" =>
+    let scale ← pRe; let zf ← pNat
+    return gradientNorm c C scale (zf = 1)
+  | "poly" =>
+    let n ← pNat; let co ← pMany n pRe
+    return polynomial c C co.toList
+  | "general" =>
+    let s0 ← pRe; let s1 ← pRe; let s2 ← pRe; let zf ← pNat
+    return general c C s0 s1 s2 (zf = 1)
+  | "vort" =>
+    let scale ← pRe; let hasInj ← pNat
+    if hasInj = 1 then
+      let m ← pNat; let g ← pRe
+      return vorticity2d c scale (some (m, g))
+    else return vorticity2d c scale none
+  | "proj3d" =>
+    let hasInj ← pNat
+    if hasInj = 1 then
+      let m ← pNat; let g ← pRe
+      return projected3d c (some (m, g))
+    else return projected3d c none
+  | "leray" => return leray c
+  | "grayscott" =>
+    let f ← pRe; let k ← pRe
+    return reaction c C (grayScottReact f k)
+  | "bz" => return reaction c C bzReact
+  | "cahn" =>
+    let sc ← pRe
+    return cahnHilliard c sc
+  | _ => throw s!"unknown nonlinear kind {kind}"
+
+def pCfg : P (Nonlin.Cfg CF) := do
+  let D ← pNat; let N ← pNat; let s ← pRe; let fp ← pNat; let fq ← pNat
+  return { D := D, N := N, s := s, fp := fp, fq := fq }
+
+def specOfArray (C M : Nat) (a : Array CF) : Nonlin.MC CF :=
+  Transform.tab C (fun ch => Transform.tab M (fun h => a.getD (ch * M + h) 0))
+def arrayOfSpec (C M : Nat) (f : Nonlin.MC CF) : Array CF :=
+  (Array.range C).flatMap (fun ch => Transform.tab M (fun h => Nonlin.at2 f ch h))
+
+/-- polynomial symbol terms: n, then per term: coefficient (complex) and D exponents -/
+def pTerms (D : Nat) : P (List (CF × List Nat)) := do
+  let n ← pNat
+  let mut out := []
+  for _ in [0:n] do
+    let co ← pCF
+    let al ← pMany D pNat
+    out := out ++ [(co, al.toList)]
+  return out
+
 
 open Layout Transform in
 def dispatch (op : String) : P String := do
@@ -123,13 +184,13 @@ def dispatch (op : String) : P String := do
   | "rfftn" =>
     let D ← pNat; let N ← pNat
     let u ← pMany (N ^ D) pRe
-    let uh := rfftnM D N (fnOfArray u)
-    return outCF ((List.range (numModes D N)).map uh)
+    let uh := rfftnM D N u
+    return outCF uh.toList
   | "irfftn" =>
     let D ← pNat; let N ← pNat
     let c ← pMany (numModes D N) pCF
-    let u := irfftnM D N (fnOfArray c)
-    return outRe ((List.range (N ^ D)).map u)
+    let u := irfftnM D N c
+    return outRe u.toList
   | "etd_coefs" =>
     -- order M r dt z  ->  exp_term [half_exp_term] coef_1 ...
     let order ← pNat; let M ← pNat; let r ← pRe; let dt ← pRe; let lam ← pCF
@@ -164,6 +225,118 @@ def dispatch (op : String) : P String := do
       | 3 => Gen.Etdrk.E3step E Eh (cf 0) (cf 1) (cf 2) (cf 3) (cf 4) N u
       | _ => Gen.Etdrk.E4step E Eh (cf 0) (cf 1) (cf 2) (cf 3) (cf 4) (cf 5) N u
     return outCF (out.toArray n).toList
+  | "sym_poly" =>
+    -- D N s nterms (c α..)*  -> symbol at every stored mode
+    let D ← pNat; let N ← pNat; let sc ← pRe
+    let terms ← pTerms D
+    let c : Nonlin.Cfg CF := { D := D, N := N, s := sc, fp := 0, fq := 0 }
+    return outCF ((List.range (numModes D N)).map (Nonlin.polySymbol c terms))
+  | "nonlin" =>
+    -- D N s fp fq C <spec> uhat[C*M]
+    let c ← pCfg; let C ← pNat
+    let f ← pNonlin c C
+    let M := numModes c.D c.N
+    let uh ← pMany (C * M) pCF
+    let out := f (specOfArray C M uh)
+    return outCF (arrayOfSpec C M out).toList
+  | "fullstep" =>
+    -- order Mc r dt | D N s fp fq C | CL (terms)*CL | <nonlin spec> | u[C*G] reals   -> u_next[C*G]
+    let order ← pNat; let Mc ← pNat; let r ← pRe; let dt ← pRe
+    let c ← pCfg; let C ← pNat
+    let CL ← pNat
+    let mut syms : Array (List (CF × List Nat)) := #[]
+    for _ in [0:CL] do
+      syms := syms.push (← pTerms c.D)
+    let f ← pNonlin c C
+    let M := numModes c.D c.N
+    let G := c.N ^ c.D
+    let u ← pMany (C * G) pRe
+    let lam (ch h : Nat) : CF := Nonlin.polySymbol c (syms.getD (if CL = 1 then 0 else ch) []) h
+    let vec (g : Nat → Nat → CF) : BVec :=
+      BVec.v ((Array.range C).flatMap (fun ch => Transform.tab M (g ch)))
+    let uh : BVec := BVec.v ((Array.range C).flatMap (fun ch =>
+      rfftnM c.D c.N (Transform.tab G (fun j => u.getD (ch * G + j) 0))))
+    let Nl : BVec → BVec := fun v => BVec.v (arrayOfSpec C M (f (specOfArray C M (v.toArray (C * M)))))
+    let E := vec (fun ch h => Gen.Etdrk.exp_term dt (lam ch h))
+    let out : BVec := match order with
+      | 0 => Gen.Etdrk.E0step E uh
+      | 1 => Gen.Etdrk.E1step E (vec (fun ch h => Gen.Etdrk.E1_coef_1 dt (lam ch h) Mc r)) Nl uh
+      | 2 => Gen.Etdrk.E2step E (vec (fun ch h => Gen.Etdrk.E2_coef_1 dt (lam ch h) Mc r))
+               (vec (fun ch h => Gen.Etdrk.E2_coef_2 dt (lam ch h) Mc r)) Nl uh
+      | 3 => Gen.Etdrk.E3step E (vec (fun ch h => Gen.Etdrk.E3_half_exp_term dt (lam ch h) Mc r))
+               (vec (fun ch h => Gen.Etdrk.E3_coef_1 dt (lam ch h) Mc r))
+               (vec (fun ch h => Gen.Etdrk.E3_coef_2 dt (lam ch h) Mc r))
+               (vec (fun ch h => Gen.Etdrk.E3_coef_3 dt (lam ch h) Mc r))
+               (vec (fun ch h => Gen.Etdrk.E3_coef_4 dt (lam ch h) Mc r))
+               (vec (fun ch h => Gen.Etdrk.E3_coef_5 dt (lam ch h) Mc r)) Nl uh
+      | _ => Gen.Etdrk.E4step E (vec (fun ch h => Gen.Etdrk.E4_half_exp_term dt (lam ch h) Mc r))
+               (vec (fun ch h => Gen.Etdrk.E4_coef_1 dt (lam ch h) Mc r))
+               (vec (fun ch h => Gen.Etdrk.E4_coef_2 dt (lam ch h) Mc r))
+               (vec (fun ch h => Gen.Etdrk.E4_coef_3 dt (lam ch h) Mc r))
+               (vec (fun ch h => Gen.Etdrk.E4_coef_4 dt (lam ch h) Mc r))
+               (vec (fun ch h => Gen.Etdrk.E4_coef_5 dt (lam ch h) Mc r))
+               (vec (fun ch h => Gen.Etdrk.E4_coef_6 dt (lam ch h) Mc r)) Nl uh
+    let oa := out.toArray (C * M)
+    let res := (List.range C).flatMap (fun ch =>
+      (irfftnM c.D c.N (Transform.tab M (fun h => oa.getD (ch * M + h) 0))).toList)
+    return outRe res
+  | "convert" =>
+    let fname ← nextTok
+    let pList : P (List CF) := do
+      let n ← pNat
+      return (← pMany n pRe).toList
+    match fname with
+    | "normalize_coefficients" =>
+      let cs ← pList; let L ← pRe; let dt ← pRe
+      return outRe (Gen.Convert.normalize_coefficients cs L dt)
+    | "denormalize_coefficients" =>
+      let cs ← pList; let L ← pRe; let dt ← pRe
+      return outRe (Gen.Convert.denormalize_coefficients cs L dt)
+    | "normalize_convection_scale" =>
+      let b ← pRe; let L ← pRe; let dt ← pRe
+      return outRe [Gen.Convert.normalize_convection_scale b L dt]
+    | "denormalize_convection_scale" =>
+      let b ← pRe; let L ← pRe; let dt ← pRe
+      return outRe [Gen.Convert.denormalize_convection_scale b L dt]
+    | "normalize_gradient_norm_scale" =>
+      let b ← pRe; let L ← pRe; let dt ← pRe
+      return outRe [Gen.Convert.normalize_gradient_norm_scale b L dt]
+    | "denormalize_gradient_norm_scale" =>
+      let b ← pRe; let L ← pRe; let dt ← pRe
+      return outRe [Gen.Convert.denormalize_gradient_norm_scale b L dt]
+    | "normalize_polynomial_scales" =>
+      let cs ← pList; let L ← pRe; let dt ← pRe
+      return outRe (Gen.Convert.normalize_polynomial_scales cs L dt)
+    | "denormalize_polynomial_scales" =>
+      let cs ← pList; let L ← pRe; let dt ← pRe
+      return outRe (Gen.Convert.denormalize_polynomial_scales cs L dt)
+    | "reduce_normalized_coefficients_to_difficulty" =>
+      let cs ← pList; let D ← pNat; let N ← pNat
+      return outRe (Gen.Convert.reduce_normalized_coefficients_to_difficulty cs D N)
+    | "extract_normalized_coefficients_from_difficulty" =>
+      let cs ← pList; let D ← pNat; let N ← pNat
+      return outRe (Gen.Convert.extract_normalized_coefficients_from_difficulty cs D N)
+    | "reduce_normalized_convection_scale_to_difficulty" =>
+      let b ← pRe; let D ← pNat; let N ← pNat; let M ← pRe
+      return outRe [Gen.Convert.reduce_normalized_convection_scale_to_difficulty b D N M]
+    | "extract_normalized_convection_scale_from_difficulty" =>
+      let b ← pRe; let D ← pNat; let N ← pNat; let M ← pRe
+      return outRe [Gen.Convert.extract_normalized_convection_scale_from_difficulty b D N M]
+    | "reduce_normalized_gradient_norm_scale_to_difficulty" =>
+      let b ← pRe; let D ← pNat; let N ← pNat; let M ← pRe
+      return outRe [Gen.Convert.reduce_normalized_gradient_norm_scale_to_difficulty b D N M]
+    | "extract_normalized_gradient_norm_scale_from_difficulty" =>
+      let b ← pRe; let D ← pNat; let N ← pNat; let M ← pRe
+      return outRe [Gen.Convert.extract_normalized_gradient_norm_scale_from_difficulty b D N M]
+    | "reduce_normalized_nonlinear_scales_to_difficulty" =>
+      let a ← pRe; let b ← pRe; let c ← pRe; let D ← pNat; let N ← pNat; let M ← pRe
+      let r := Gen.Convert.reduce_normalized_nonlinear_scales_to_difficulty (a, b, c) D N M
+      return outRe [r.1, r.2.1, r.2.2]
+    | "extract_normalized_nonlinear_scales_from_difficulty" =>
+      let a ← pRe; let b ← pRe; let c ← pRe; let D ← pNat; let N ← pNat; let M ← pRe
+      let r := Gen.Convert.extract_normalized_nonlinear_scales_from_difficulty (a, b, c) D N M
+      return outRe [r.1, r.2.1, r.2.2]
+    | _ => throw s!"unknown conversion {fname}"
   | _ => throw s!"unknown op {op}"
 
 partial def loop (h : IO.FS.Stream) (out : IO.FS.Stream) : IO Unit := do
